@@ -127,6 +127,74 @@ class Stream:
         return {"class": shapes.class_id(self.cls), "msgs": msgs, "lead": lead.hex(), "trail": trail.hex(), "info": info}
 
 
+class ForeignStream(Stream):
+    """the same stream, but written by a conforming PEER: every message comes from the reference
+    encoder and carries an unknown tagged field in the header and/or the payload (where the
+    version is flexible).  Reading must stay aligned: all messages decode back to back to the
+    values on the wire and exactly the trailing bytes remain."""
+
+    def build_all(self, b):
+        msgs = []
+        for i in range(self.m):
+            h = b.entity(self.hcls, f"h{i}")
+            x = b.entity(self.cls, f"x{i}")
+            msgs.append((h, x))
+        return msgs
+
+    def run(self, c):
+        shape = dict(self.shape)
+        for i in range(self.m):
+            if self.hcls.__flexible__:
+                shape.setdefault(f"h{i}#unk", 1)
+            if self.cls.__flexible__:
+                shape.setdefault(f"x{i}#unk", 1)
+        b = shapes.Builder(c, shape, regions=self.opts["regions"], max_array=self.opts["max_array"], wire=True)
+        msgs = self.build_all(b)
+        c.notes["builder"] = b
+        c.notes["msgs"] = msgs
+        L, _ = sym_var("lead#len", 0, 300)
+        lead = [byte_of(z3.BitVec("lead0", 8)), Blob(L, "bytes", name="lead"), byte_of(z3.BitVec("lead1", 8))]
+        trail = [byte_of(z3.BitVec("trail0", 8)), byte_of(z3.BitVec("trail1", 8))]
+        c.notes["lead"], c.notes["trail"] = lead, trail
+        items = list(lead)
+        for h, x in msgs:
+            items += kref.encode(h, b.extras) + kref.encode(x, b.extras)
+        items += trail
+        c.notes["wire_items"] = items
+        monR = ProtocolMonitor()
+        src = Src(SymBytes(items), monitor=monR)
+        src.read(L + 2)
+        ok = True
+        try:
+            for h, x in msgs:
+                h2 = self.rh(src)
+                x2 = self.rp(src)
+                for a, bb in ((h, h2), (x, x2)):
+                    eq = (bb == a)
+                    if type(eq) is SymBool:
+                        eq = bool(eq)
+                    ok = ok and bool(eq)
+        except Unsupported:
+            raise
+        except Exception as e:
+            raise Violation("peer_written_messages_decode_back_to_back", {"exception": type(e).__name__, "msg": str(e)[:200]})
+        rest, _ = kref.items_equal(src.remaining().items, trail)
+        c.outcome = "decoded_foreign"
+        return [("peer_written_messages_decode_back_to_back", ok), ("exactly_the_trailing_bytes_remain_after_peer_messages", rest),
+                ("decoder_only_calls_read", not monR.forbidden and src.bad_arg is None)]
+
+    def witness(self, c, model, clause, info):
+        b = c.notes["builder"]
+        m = shapes.prefer_small(c, b.leaves, extra=c.notes.get("neg_clause")) or model
+        try:
+            data = shapes.concretise(SymBytes(c.notes["wire_items"]), m)
+        except shapes.TooLarge:
+            data = None
+        msgs = [[shapes.to_jsonable(shapes.concretise(h, m)), shapes.to_jsonable(shapes.concretise(x, m))] for h, x in c.notes["msgs"]]
+        return {"class": shapes.class_id(self.cls), "foreign": True, "bytes": None if data is None else data.hex(), "msgs": msgs,
+                "lead_len": len(shapes.concretise(SymBytes(c.notes["lead"]), m)), "trail": shapes.concretise(SymBytes(c.notes["trail"]), m).hex()}
+
+
 # ---- concrete stream kinds ------------------------------------------------------------------
 class _CaptureTransport:
     def __init__(self):
@@ -270,6 +338,11 @@ def task_class(args):
 
         explore(h, max_paths=opts["per_shape_paths"], stats=stats, deadline=deadline, range_bound=opts["max_array"] + 1, on_path=on_path)
         nshapes += 1
+    if cls.__flexible__ or cls.__header_schema__.__flexible__:
+        from .c10 import hints_for
+
+        explore(ForeignStream(cls, {}, opts), max_paths=opts["per_shape_paths"], stats=stats, deadline=deadline + 10, range_bound=opts["max_array"] + 1,
+                hints=sorted(set(hints_for(cls)) | set(hints_for(cls.__header_schema__))))
     return {"class": cid, "stats": stats.to_json(), "shapes": nshapes, "kinds_ok": kinds_ok, "kinds_bad": kinds_bad, "wall": round(time.time() - t0, 2)}
 
 
